@@ -123,6 +123,7 @@ int dParseFloatFormat(char *buf, int *num, int *size)
            num picked up refers to P, which should be skipped. */
         if (*tmp=='p' || *tmp=='P') {
            ++tmp;
+           if (*tmp == ',') ++tmp; /* (1P,5E16.8) is as legal as (1P5E16.8) */
            *num = atoi(tmp); /*sscanf(tmp, "%d", num);*/
         } else {
            ++tmp;
